@@ -47,6 +47,17 @@ def _latent_time_interval(ts: datetime, ti: Interval) -> Interval:
     if dm_from <= ts:
         dm_from += relativedelta(days=1)
         dm_to += relativedelta(days=1)
+    if dm_to <= dm_from:
+        # same wrapping as for a time range on an explicit date (ruleDateInterval):
+        # implicit am->pm ("9:30-9:00"), else the range ends on the next day
+        if (
+            ti.t_from.hour <= 12
+            and ti.t_to.hour <= 12
+            and ti.t_from.hour >= ti.t_to.hour
+        ):
+            dm_to += relativedelta(hours=12)
+        else:
+            dm_to += relativedelta(days=1)
     return Interval(
         t_from=Time(
             year=dm_from.year,
